@@ -39,7 +39,12 @@ def run(ck, F):
     for fn, u in X.errors.items():
         ck.undecided("R4", f"unrecognised:{u.what[:60]}", Hh.sp(u.node) if u.node else "-", f"{fn}: output grammar extraction failed: {u.what}", fn=fn)
     # ---- R1
-    segs = W.prelude_segments(F)
+    try:
+        segs = W.prelude_segments(F)
+    except W.FixedTextUnreadable as u:
+        ck.violation("R2", "HELPERS:emitted-verbatim", "-", f"the file header / helper text is not written as one fixed text, unconditionally: {u}")
+        ck.undecided("R1", "prelude", "-", "the fixed part of the output could not be assembled (see R2)")
+        return
     ok, diags = W.check(F, segs, "c18")
     if ok:
         ck.ok("R1", "prelude-typechecks", "witness/prelude", "HEADER + helpers + witnesses type-check against the six documented crates")
@@ -58,7 +63,9 @@ def run(ck, F):
         if not seen:
             ck.ok("R1", "prelude-typechecks", "witness/prelude", "prelude compiles (only witness obligations of C18/C19 fail)")
     # ---- R2
-    helpers_const = W.const_value(F, "write_xml::HELPERS")
+    from rules import anchors as A
+    helpers_const, helpers_why = A.helpers_text(F, X)
+    header_const, header_why = A.header_text(F, X)
     mod = [m for m in F.lib.items["modules"] if m["path"] == "model::helpers_content"]
     if not mod:
         ck.undecided("R2", "helper-module", "-", "module model::helpers_content not found (the emitted helper is no longer compiled into zeep-lib)")
@@ -73,17 +80,13 @@ def run(ck, F):
         else:
             ck.violation("R2", "helper-identity", path,
                          "the helper text that is emitted differs from the helper module that is compiled (and analysed) inside zeep-lib")
-    for fn, cname in (("<model::file_header::FileHeader as reader::WriteXml<W>>::write_xml", "HEADER"),
-                      ("<model::helpers::Helpers as reader::WriteXml<W>>::write_xml", "HELPERS")):
+    for fn, cname, txt, why in ((A.HEADER_WRITER, "HEADER", header_const, header_why), (A.HELPERS_WRITER, "HELPERS", helpers_const, helpers_why)):
         evs = X.events.get(fn, [])
-        good = len(evs) == 1 and evs[0].kind == "emit" and len(evs[0].parts) == 1 and evs[0].parts[0][0] == "hole" \
-            and evs[0].parts[0][1][0] == "const" and evs[0].parts[0][1][1].endswith("::" + cname) and evs[0].parts[0][2] == "display" \
-            and not evs[0].ctx and evs[0].propagated == "try"
-        if good:
-            ck.ok("R2", f"{cname}:emitted-verbatim", evs[0].site, f"{fn.split(' as ')[0][1:]} writes exactly {{{cname}}}")
+        if txt is not None:
+            ck.ok("R2", f"{cname}:emitted-verbatim", evs[0].site if evs else "-", f"{fn.split(' as ')[0][1:]} writes one fixed text ({len(txt)} bytes), unconditionally, result propagated")
         else:
             ck.violation("R2", f"{cname}:emitted-verbatim", evs[0].site if evs else "-",
-                         f"{fn} does not emit exactly its constant {cname} once, unconditionally")
+                         f"{fn} does not write one fixed text unconditionally: {why}")
     root = X.events.get(T.ROOT, [])
     if root and root[0].kind == "call" and "FileHeader" in root[0].callee and not root[0].ctx and \
             root[-1].kind == "call" and "helpers::Helpers" in root[-1].callee and not root[-1].ctx:
@@ -92,7 +95,7 @@ def run(ck, F):
         ck.violation("R2", "header-first-helpers-last", root[0].site if root else "-",
                      "RustDocument::write_xml does not start with the file header and end with the helper text unconditionally")
     # ---- R5
-    text = (W.const_value(F, "write_xml::HEADER") or "") + (helpers_const or "")
+    text = (header_const or "") + (helpers_const or "")
     code = re.sub(r"//[^\n]*", "", text)
     roots = set(re.findall(r"(?<![\w:.])([a-zA-Z_]\w*)::", code))
     bad = sorted(r for r in roots if r in ZEEP_ONLY_CRATES)
